@@ -75,11 +75,21 @@ pub fn replay_line(st: &mut Stats, prop: &str, line: &Value) {
             calls.borrow_mut().push(pairs);
             out
         };
+        // the sets are handed over as an iterator; its size hint may promise more than it yields (two extra sets are filtered
+        // out again) or nothing at all (from_fn): the clustering is about the sets that ARE yielded
+        let form = fnv(&line.to_string()) % 3;
+        let extra: Vec<HpoSet> = (0..2).map(|_| HpoSet::new(&ont, HpoGroup::new())).collect();
+        let mut plain = sets.into_iter();
+        let boxed: Box<dyn Iterator<Item = HpoSet>> = match form {
+            0 => Box::new(plain),
+            1 => Box::new(plain.chain(extra).enumerate().filter(move |(i, _)| *i < n).map(|(_, s)| s)),
+            _ => Box::new(std::iter::from_fn(move || plain.next())),
+        };
         let l = match mode {
-            "single" => Linkage::single(sets, dist),
-            "complete" => Linkage::complete(sets, dist),
-            "average" => Linkage::average(sets, dist),
-            _ => Linkage::union(sets, dist),
+            "single" => Linkage::single(boxed, dist),
+            "complete" => Linkage::complete(boxed, dist),
+            "average" => Linkage::average(boxed, dist),
+            _ => Linkage::union(boxed, dist),
         };
         let cl = l.cluster().map(|c| (c.lhs() as u64, c.rhs() as u64, c.distance(), c.len() as u64)).collect::<Vec<_>>();
         let idx: Vec<u64> = l.indicies().into_iter().map(|x| x as u64).collect();
